@@ -123,5 +123,12 @@ MODEL_LEVEL = {
     'C14': 'Escaping layer (Props/C14Escape, Model/Escape = quick-xml escape/unescape over bytes, tied by the esc correspondence family): unescape(escape s) = s '
            'for every byte string, the written value cannot end the attribute early; C14_roundtrip_abs: read(write g) is a well-formed store of the same abstract graph.',
 }
+MODEL_LEVEL.update({
+    'C05': 'Model level (Props/C05Full): the Brandes model (BFS / Dijkstra stage with path counts, accumulation, rescale) equals the definition by enumeration '
+           'of all shortest paths on every store reachable through the mutation API, both modes, raw and normalised (C05_full_statement_reachable).',
+    'C16': 'Props/C16Store: the generated graph never fails for any skip sequence, has nodes 0..n-1 and exactly the emitted pairs; every subset of the undirected '
+           'slots and every directed pair is produced by some skip sequence.',
+    'C17': 'Props/C17Model: the Louvain visit / sweep / level of the step model are independent of the iteration order of the candidate-community map.',
+})
 for _k, _v in MODEL_LEVEL.items():
     TEXT[_k]['level'] = TEXT[_k]['level'] + ' ' + _v
